@@ -243,6 +243,8 @@ def _trace_exact(A):
 
 
 def _alg(name, kw):
+    if not isinstance(name, str):
+        return name  # a caller-owned algorithm object reused across calls
     kw = dict(kw or {})
     return {
         "Auto": cl.Auto, "LU": cl.LU, "Cholesky": cl.Cholesky, "CG": cl.CG, "GMRES": cl.GMRES,
@@ -361,12 +363,12 @@ def _svd(A, k=2, which="LM", alg=None, akw=None):
 
 @reg("cholesky")
 def _cholesky(A):
-    return cl.cholesky(A)
+    return _lazy_import("cola.linalg.decompositions.decompositions").cholesky(A)
 
 
 @reg("plu")
 def _plu(A):
-    return cl.plu(A)
+    return _lazy_import("cola.linalg.decompositions.decompositions").plu(A)
 
 
 @reg("cg")
@@ -394,5 +396,5 @@ def tags(name):
     return FNS[name][1]
 
 
-def call(name, **args):
-    return FNS[name][0](**args)
+def call(_fn, **args):
+    return FNS[_fn][0](**args)
